@@ -64,6 +64,7 @@ def scene_xml(c):
         cd = c.get("condim", "mix")
         xml = piles.pile_xml(rng, nclusters=int(c.get("nclusters", 2)), per=int(c.get("per", 4)), condim=cd, spacing=c.get("spacing", 1.2),
                              multi_geom=0.3)
+        xml = xml.replace('memory="40M"', 'memory="8M"')      # small heaps: keeps mj_resetData / mj_makeData cheap
         root = ET.fromstring(xml)
         _decorate_contacts(root, rng, c.get("adhesion", False))
         if c.get("floss"):
@@ -80,6 +81,19 @@ def scene_xml(c):
                 tendon_armature=c.get("tarm", 0.15))
     over.update(c.get("over", {}))
     xml, _ = model.gen_profile(rng, c["profile"], **over)
+    if c.get("actdamp"):
+        # actuator-contributed damping / armature on joint and tendon transmissions (doc XMLreference actuator/general damping, armature)
+        root = ET.fromstring(xml)
+        act = root.find("actuator")
+        for a in (act if act is not None else []):
+            if a.tag in ("muscle", "adhesion") or not ("joint" in a.attrib or "tendon" in a.attrib):
+                continue
+            if rng.random() < 0.6:
+                lin = float(np.exp(rng.uniform(np.log(0.01), np.log(3))))
+                a.set("damping", model.f([lin, lin * rng.uniform(0, 1) * (rng.random() < 0.4), 0.0]))
+            if rng.random() < 0.3:
+                a.set("armature", model.f(np.exp(rng.uniform(np.log(1e-3), np.log(0.2)))))
+        xml = ET.tostring(root, encoding="unicode")
     if c.get("adhesion"):
         root = ET.fromstring(xml)
         for g in root.iter("geom"):
